@@ -686,8 +686,8 @@ def gen_hist(rng, csl, ml, kinds):
     n = rng.choice([1, 2, 3, 4, 6, 8])
     k = gen_k(rng) if rng.random() < 0.5 else rng.choice([2, 7, 5, -2, 1, -1, 3, 4, 9, 11, -5, 12])
     mn, mx = gen_range(rng)
-    if mx - mn < 12 and rng.random() < 0.7:
-        mn, mx = 0, 128
+    if (mx - mn < 12 and rng.random() < 0.7) or mn < 0:
+        mn, mx = 0, 128      # (a negative lower bound can leave events below -2 in a melody, which no constructor - hence no deepcopy - accepts)
 
     def obj(t):
         raw = (gen_events(rng, k) + [rng.choice([-2, -1, rng.randrange(128)]) for _ in range(n)])[:n]
